@@ -304,4 +304,38 @@ def r9_numeric_table(ctx):
         ctx.floor("R9", "numeric deserialize_* entry points", n, 36, config=cfg)
 
 
-RULES = [("R1", r1_inverse), ("R2", r2_sets), ("R3", r3_delimiter), ("R4", r4_split_before_unescape), ("R5", r5_keys), ("R6", r6_quote_target), ("R7", r7_bool_table), ("R8", r8_lists), ("R9", r9_numeric_table)]
+# deserializers whose Option is decided by the emptiness of a text (the others always have a value: visit_some)
+OPTION_BY_TEXT = ("QNameDeserializer", "MapValueDeserializer", "AtomicDeserializer", "TextDeserializer", "Deserializer")
+
+
+def r10_option_table(ctx):
+    """`None` is written as nothing, so an empty text (or the end of the input) must read back as None and anything else
+    as Some: every deserialize_option that looks at a text decides by `is_empty()` with that polarity."""
+    for cfg, F in ctx.facts.items():
+        n = 0
+        for b in F.bodies:
+            if not strip_generics(b.path).endswith("::deserialize_option") or not b.loc(b.j["span"]).startswith("src/de/"):
+                continue
+            import re as _re
+            mty = _re.match(r"<(?:&'a mut )?(?:quick_xml::)?([\w:]+)", strip_generics(b.path))
+            ty = mty.group(1).split("::")[-1] if mty else b.loc(b.j["span"])
+            if ty not in OPTION_BY_TEXT:
+                continue
+            rows = {}
+            for p in ctx.paths(b):
+                vis = [sym.short(c[2]).split("::")[-1] for c in calls(p) if name_is(c[2], "visit_none", "visit_some")]
+                if not vis:
+                    continue
+                e = None
+                for x in p:
+                    if x[0] == "switch" and call_is(x[2], "is_empty"):
+                        e = x[3] != 0
+                if e is not None:
+                    rows.setdefault(e, set()).add(vis[-1])
+            n += 1
+            ctx.ob("R10", "%s::deserialize_option" % ty, rows.get(True) == {"visit_none"} and "visit_some" in rows.get(False, set()),
+                   "empty text -> visit_none, non-empty -> visit_some: %s" % {str(k): sorted(v) for k, v in rows.items()}, loc=b.loc(b.j["span"]), config=cfg)
+        ctx.floor("R10", "deserialize_option bodies that test emptiness", n, len(OPTION_BY_TEXT), config=cfg)
+
+
+RULES = [("R1", r1_inverse), ("R2", r2_sets), ("R3", r3_delimiter), ("R4", r4_split_before_unescape), ("R5", r5_keys), ("R6", r6_quote_target), ("R7", r7_bool_table), ("R8", r8_lists), ("R9", r9_numeric_table), ("R10", r10_option_table)]
